@@ -255,6 +255,23 @@ def fold_minimize(ck: Checker, R: str, handmade_only=False):
                                 buckets['validation'].append(f'with validation enabled the run raises {e.exc_name} on {desc}')
                         if failed != wrong and not (failed is False and has_equiv and wrong is False):
                             buckets['validation'].append((f'validation passes a result whose truth table differs' if wrong else 'validation reports a failure although the result has the same truth table') + f' on {desc}')
+                    if not wrong and is_hand and mode == 'search' and cut_size == 3 and not rev:
+                        # the result is a circuit like any other: minimising it once more must preserve the function again
+                        current['c'] = res
+                        it.steps = 0
+                        M.den.interp.steps = 0
+                        try:
+                            res2 = run(res, basis=basis, cut_size=cut_size, max_subcircuit_size=6, solver_time_limit_sec=1)
+                            d2 = res2._d
+                            tt2 = [[state_values(res2, dict(zip(inputs, bits)))[o] for bits in itertools.product((False, True), repeat=len(inputs))] for o in d2['_outputs']] if list(d2['_inputs']) == inputs and len(d2['_outputs']) == len(outs) and not cm.invariant_problems(res2) else None
+                            if tt2 != before_tt:
+                                buckets['truth table'].append(f'a second minimisation of the result changes the function ({tt2}) on {desc}')
+                        except InterpRaise as e:
+                            if not has_equiv and not _equivalent_gates([(l, g.gate_type.var, tuple(g.operands)) for l, g in res._d['_gates'].items()]):
+                                key2 = e.exc_name if e.exc_name in buckets else 'other internal error'
+                                buckets[key2].append(f'a second minimisation of the result raises {e.exc_name} on {desc}')
+                        except (KeyError, TypeError, AnalysisError):
+                            buckets['interface'].append(f'the result of a second minimisation cannot be evaluated on {desc}')
                     if after_tt != before_tt:
                         k = next(i for i in range(len(outs)) if after_tt[i] != before_tt[i])
                         flipped = all(after_tt[i] == before_tt[i] or after_tt[i] == [not v for v in before_tt[i]] for i in range(len(outs)))
